@@ -191,6 +191,14 @@ vf::Outcome run_case(const vf::Case& c, const vf::RunCtx& ctx) {
       { Heap hx(R, off, X.data()); MapCG mc(hx.data()); GroupT w(mc); GroupT w2; w2 = mc; MapG mm(hx.data()); GroupT w3(mm);
         k.require("copy.from_view", std::memcmp(w.data(), X.data(), R * sizeof(Scalar)) == 0 && std::memcmp(w2.data(), X.data(), R * sizeof(Scalar)) == 0 && std::memcmp(w3.data(), X.data(), R * sizeof(Scalar)) == 0,
                   "constructing / assigning an owning object from a view does not preserve coefficients exactly"); }
+      // owning object assigned from a (moved / temporary) mutable view: exact copy, and the viewed buffer is only read
+      { Guarded g(R, off, fill, X.data()); MapG mm(g.data()); GroupT w = Y; w = std::move(mm); GroupT w2 = Y; w2 = MapG(g.data());
+        k.require("owning=move(Map)", std::memcmp(w.data(), X.data(), R * sizeof(Scalar)) == 0 && std::memcmp(w2.data(), X.data(), R * sizeof(Scalar)) == 0, "owning = std::move(view) / owning = temporary view does not preserve coefficients exactly");
+        k.require("owning=move(Map): source untouched", g.guards_ok() && std::memcmp(g.data(), X.data(), R * sizeof(Scalar)) == 0, "owning = std::move(view) modified the viewed buffer"); }
+      { Guarded g(D, off, fill, T.data()); MapT mm(g.data()); TangentT w = U; w = std::move(mm); TangentT w2 = U; w2 = MapT(g.data()); TangentT w3 = U; { MapT m3(g.data()); w3 = m3; }
+        k.require("owning tangent=move(Map)", std::memcmp(w.data(), T.data(), D * sizeof(Scalar)) == 0 && std::memcmp(w2.data(), T.data(), D * sizeof(Scalar)) == 0 && std::memcmp(w3.data(), T.data(), D * sizeof(Scalar)) == 0,
+                  "owning tangent = std::move(view) / temporary view / view does not preserve coefficients exactly");
+        k.require("owning tangent=move(Map): source untouched", g.guards_ok() && std::memcmp(g.data(), T.data(), D * sizeof(Scalar)) == 0, "owning tangent = std::move(view) modified the viewed buffer"); }
       // tangent views
       auto check_twrite = [&](const std::string& name, Guarded& g, const TangentT& want) {
         k.require("twrite.guards:" + name, g.guards_ok(), name + " through a tangent view wrote outside the DoF scalars");
